@@ -215,12 +215,15 @@ def geo_radians(x: Fraction) -> Fraction:
 
 
 def geo_distance(a: tuple[Fraction, Fraction], b: tuple[Fraction, Fraction],
-                 tol: float) -> tuple[int, int, int, float] | None:
+                 tol: float) -> tuple[int, int, int, float]:
     """(value, lowest accepted, highest accepted, pre-truncation value).
 
     a, b are (latitude, longitude) in DDD.MM form. The angle differences are
-    formed exactly, the trigonometry is done in double precision; ``None``
-    when the acos argument is too close to +-1 for a meaningful guard band.
+    formed exactly, the trigonometry is done in double precision. The
+    accepted interval is the image of [v - tol, v + tol] under truncation;
+    where acos is ill-conditioned (argument within 1e-9 of +-1: coinciding or
+    antipodal points, e.g. two cities at a pole) the argument is additionally
+    moved by +-1e-14 (and clamped to [-1, 1]).
     """
     lat1, lon1 = geo_radians(a[0]), geo_radians(a[1])
     lat2, lon2 = geo_radians(b[0]), geo_radians(b[1])
@@ -228,12 +231,13 @@ def geo_distance(a: tuple[Fraction, Fraction], b: tuple[Fraction, Fraction],
     q2 = math.cos(float(lat1 - lat2))
     q3 = math.cos(float(lat1 + lat2))
     arg = 0.5 * ((1.0 + q1) * q2 - (1.0 - q1) * q3)
-    if a == b:
-        return 1, 1, 1, 1.0
-    if arg > 1.0 - 1e-12 or arg < -1.0 + 1e-12:
-        return None
+    arg = max(-1.0, min(1.0, arg))
     v = GEO_RRR * math.acos(arg) + 1.0
-    return int(v), int(v - tol), int(v + tol), v
+    v_lo, v_hi = v, v
+    if abs(arg) > 1.0 - 1e-9:
+        v_lo = GEO_RRR * math.acos(min(1.0, arg + 1e-14)) + 1.0
+        v_hi = GEO_RRR * math.acos(max(-1.0, arg - 1e-14)) + 1.0
+    return int(v), int(v_lo - tol), int(v_hi + tol), v
 
 
 # ----------------------------------------------------------------------------
